@@ -53,6 +53,9 @@ Definition apply_kernel (k : kernel) (e : expr) : expr :=
   | KGenerator => generator_file generator_cfg_v e
   | KSetLit => rw_set_literal e
   | KHasattr => rw_hasattr e
+  | KEmptySeq => empty_seq_file empty_seq_cfg_v false e
+  | KEmptySeqTest => empty_seq_file empty_seq_cfg_v true e
+  | KIdentity => rw_identity e
   end.
 
 Definition output_of (k : kernel) (e : expr) : expr := apply_kernel k e.
@@ -67,6 +70,9 @@ Definition kernel_guard (k : kernel) (rho : env) (e : expr) : bool :=
   | KGenerator => generator_guard generator_cfg_v rho e
   | KSetLit => true
   | KHasattr => hasattr_guard rho e
+  | KEmptySeq => empty_seq_guard empty_seq_cfg_v false rho e
+  | KEmptySeqTest => empty_seq_guard empty_seq_cfg_v true rho e
+  | KIdentity => identity_guard rho e
   end.
 Definition nodes_classes (f : expr -> expr) (cls : env -> expr -> list N) (rho : env) (e : expr) : list N :=
   flat_map (fun rn => cls (fst rn) (snd rn)) (visit f rho e).
@@ -83,6 +89,11 @@ Definition finding_classes (k : kernel) (rho : env) (e : expr) : list N :=
                   else flat_map generator_site_classes (gen_sites generator_cfg_v rho e)
   | KSetLit => []
   | KHasattr => nodes_classes hasattr_step hasattr_node_classes rho e
+  | KEmptySeq => if empty_seq_crashes false e then [] else
+                 empty_seq_classes empty_seq_cfg_v false rho e ++ (if lost_parens k e then [kf_empty_seq_lost_parens] else [])
+  | KEmptySeqTest => if empty_seq_crashes true e then [] else
+                 empty_seq_classes empty_seq_cfg_v true rho e ++ (if lost_parens k e then [kf_empty_seq_lost_parens] else [])
+  | KIdentity => identity_classes rho e
   end.
 
 Record kcase := {
@@ -101,8 +112,10 @@ Definition strip_parens (s : str) : str := List.filter (fun c => negb (N.eqb c 4
 (** the harness printer is Coq's [pp] *)
 Definition pp_ok (c : kcase) : bool := str_eqb (pp (k_expr c)) (k_text c).
 (** evaluator vs CPython (skipped where the model declines) *)
-Definition orig_result (c : kcase) : result := eval (k_env c) (norm (k_expr c)).
-Definition after_result (c : kcase) : result := eval (k_env c) (norm (apply_kernel (k_kernel c) (k_expr c))).
+(** what the program around the expression lets one observe: its value, or only its truth value (test of an `if`) *)
+Definition observe (k : kernel) (r : result) : result := match k with KEmptySeqTest => test_obs r | _ => r end.
+Definition orig_result (c : kcase) : result := observe (k_kernel c) (eval (k_env c) (norm (k_expr c))).
+Definition after_result (c : kcase) : result := observe (k_kernel c) (eval (k_env c) (norm (apply_kernel (k_kernel c) (k_expr c)))).
 Definition eval_defined (c : kcase) : bool := in_model (orig_result c).
 Definition eval_ok (c : kcase) : bool :=
   negb (in_model (orig_result c)) || str_eqb (show_result (orig_result c)) (k_obs c).
